@@ -149,6 +149,9 @@ pub fn minimise_p(ctx: &Ctx, wd: &WorkerDir, job: &Job, p: &Perturb, inv: &str) 
     try_reset!(input_first);
     try_reset!(src_mtime);
     try_reset!(host);
+    try_reset!(ncpu);
+    try_reset!(prev_run);
+    try_reset!(persist_home);
     try_reset!(hash_seed);
     // individual environment variables
     let mut i = 0;
